@@ -12,7 +12,7 @@ RESERVED = ["break", "case", "catch", "class", "continue", "default", "do", "els
             "new", "private", "protected", "public", "return", "static", "switch", "this", "throw", "try",
             "volatile", "while"]
 PKGS = ["p", "q", "p.q", "com.x", "a.b.c", "other.pkg", "pkg"]
-NAMES = ["Foo", "Bar", "Baz", "XFoo", "FooX", "Foo2", "Qux", "IFoo", "Listing", "int_", "inout2", "Maps", "_x"]
+NAMES = ["Foo", "Bar", "Baz", "XFoo", "FooX", "FooFoo", "Foo2", "Qux", "IFoo", "Listing", "int_", "inout2", "Maps", "_x"]
 MEMBERS = ["a", "b", "c", "get", "set", "value", "x1", "doIt", "in_", "outer", "String_", "f", "g"]
 WS = [" ", "  ", "\t", "\n", "\r\n", "\n\n", " \n ", "\u0085", "\u00a0", "\u1680", "\u2000", "\u2003",
       "\u200a", "\u2028", "\u2029", "\u202f", "\u205f", "\u3000", "\x0b", "\x0c", "\r"]
@@ -346,7 +346,7 @@ def gen_trivia(rng, style, must):
         elif r < 0.8:
             out += "/*" + rng.choice(["", " c ", "x;y{}", " é日本 ", "* a *", "\n multi\n line ", " @x "]) + "*/"
         else:
-            out += "//" + rng.choice(["", " c", " x;y{}", " é😀", " /* not */", " /** doc? */"]) + rng.choice(["\n", "\r\n", "\n\n"])
+            out += "//" + rng.choice(["", " c", " x;y{}", " é😀", " /* not */", " /** doc? */"]) + rng.choice(["\n", "\r\n", "\n\n", "\r", "\r\r\n"])
     if must and out == "":
         out = rng.choice(WS)
     return out
@@ -370,6 +370,8 @@ def render(toks, rng=None, style="space"):
         prev = t.text
     if style in ("wild", "safe"):
         text += gen_trivia(rng, style, False)
+    if style == "wild" and rng.random() < 0.2:
+        text += rng.choice(["// end", "//", " // last line, no newline", "/* eof */"])     # nothing after the last comment
     return text, spans
 
 
@@ -414,6 +416,9 @@ def gen_project(rng, opts=None):
             if len(segs) > 2:
                 pool.append(".".join(segs[-2:]))
             pool.append("X" + segs[-1])
+            if rng.random() < 0.15:
+                pool.append("zz." + q)              # more qualification than the import has: not that import
+                pool.append(segs[-1] + segs[-1])    # the simple name twice: not that import either
         pool += [d.split(".")[-1] for d in declared] + declared + ["Unknown", "other.pkg.Foo"]
         d = gen_doc(rng, pkg, name, kind, pool, imports, declared, opts)
         files.append(("f%d" % i, d))
